@@ -37,6 +37,7 @@ type World struct {
 	useVTA    bool
 	allFuncs  map[*ssa.Function]bool
 	addrTaken map[*ssa.Function]bool
+	boxed     map[string]bool
 	flagBind  map[*ssa.Global]map[string]bool
 	srcFuncs  []*ssa.Function // functions with source in repo packages (non-generated: not internal/grammar)
 }
